@@ -629,7 +629,14 @@ func explore(sc *scenario, minBound int, budget time.Duration) report {
 			}
 		}
 	}
-	for bound = minBound; ; bound++ {
+	// bounds tried: g, g+1, g+2, g+3, then the step doubles (each pass starts
+	// from scratch and contains the previous one, so doubling keeps the total
+	// within a small factor of the last pass)
+	step := 1
+	for bound = minBound; ; bound += step {
+		if bound >= minBound+3 {
+			step *= 2
+		}
 		budget = soft
 		if bound <= minBound {
 			budget = 20 * soft
